@@ -44,6 +44,8 @@ fn emit_font(rec: &mut Rec, font: &MonoFont, mapping: &StrGlyphMapping, raw: &[u
     let mut probe_cs = chars.clone();
     probe_cs.extend_from_slice(&UNMAPPED);
     probe_cs.extend_from_slice(extra_probes);
+    let mut seen = std::collections::BTreeSet::new();
+    probe_cs.retain(|c| seen.insert(*c));
     let m = metrics_json(font);
     rec.ev(
         "font",
